@@ -682,28 +682,29 @@ func registryCases(r *ev.Run, e *env) {
 	}
 	// the same fresh scheme registered by several goroutines at once: the registry is guarded by a
 	// lock, so exactly one registration wins and the others find the scheme already registered
-	rounds := r.N(2000, 20000)
+	rounds := r.N(8000, 60000)
 	for k := 0; k < rounds; k++ {
 		id := fmt.Sprintf("c19/regsink-concurrent/%d", k)
 		if !r.Want(id) {
 			continue
 		}
 		name := fmt.Sprintf("vc%dx%d", k, os.Getpid())
-		const ng = 6
-		var ok atomic.Int32
-		start := make(chan struct{})
+		const ng = 8
+		var ok, arrived atomic.Int32
 		var wg sync.WaitGroup
 		for gi := 0; gi < ng; gi++ {
 			wg.Add(1)
 			go func() {
 				defer wg.Done()
-				<-start
+				// spin barrier: all goroutines enter RegisterSink within a few instructions of each other
+				arrived.Add(1)
+				for spins := 0; arrived.Load() < ng && spins < 1<<22; spins++ {
+				}
 				if zap.RegisterSink(name, badFactory) == nil {
 					ok.Add(1)
 				}
 			}()
 		}
-		close(start)
 		wg.Wait()
 		r.Eval(1)
 		r.Distinct("regsink-conc|" + id)
